@@ -303,7 +303,7 @@ func plusT(a lexTree) lexTree {
 
 func lexAtoms() []lexTree {
 	return []lexTree{
-		lit("a"), lit("b"), lit("ab"), lit("ba"),
+		lit("a"), lit("b"), lit("ab"), lit("ba"), lit("é"), lit("a→"),
 		class("a", []rng{{'a', 'a'}}, false),
 		class("ab", []rng{{'a', 'b'}}, false),
 		class("a-c", []rng{{'a', 'c'}}, false),
@@ -581,7 +581,7 @@ func TestLexerDFA(t *testing.T) {
 			rep.sample(name)
 		}
 	})
-	rep.done(t, false, fmt.Sprintf("%d expression shapes of size <=3 over 14 atoms (literals, classes incl. negation, nested and overlapping items, code-space ends, '.'); every single rule, every rule that also matches the empty string beside another rule, plus %d seeded random sets of 2-3 rules; per set ALL strings are covered by product exploration (<=4000 product states)", len(usable), n))
+	rep.done(t, false, fmt.Sprintf("%d expression shapes of size <=3 over 16 atoms (literals incl. multi-byte characters, classes incl. negation, nested and overlapping items, code-space ends, '.'); every single rule, every rule that also matches the empty string beside another rule, plus %d seeded random sets of 2-3 rules; per set ALL strings are covered by product exploration (<=4000 product states)", len(usable), n))
 }
 
 // ---- non-greedy repetitions (C08) ----------------------------------------------------------------
